@@ -117,9 +117,9 @@ func nfpmBinary() string { return os.Getenv("VERIF_NFPM") }
 
 type CLICase struct {
 	Case     *BuildCase `json:"case"`
-	Packager string     `json:"packager"` // format the package is meant for
-	PassP    bool       `json:"pass_p"`   // give -p
-	Target   string     `json:"target"`   // kind: file-matching | file-foreign | dir | empty | dir-slash
+	Packager string     `json:"packager"`        // format the package is meant for
+	PassP    bool       `json:"pass_p"`          // give -p
+	Target   string     `json:"target"`          // kind: file-matching | file-foreign | dir | empty | dir-slash
 	Stale    bool       `json:"stale,omitempty"` // a longer file already sits at the final path
 }
 
